@@ -11,6 +11,7 @@ From DC Require Context.Model Context.Spec.
 From DC Require Collections.Model.
 From DC Require Causal.Model Causal.Entry Causal.Check.
 From DC Require CSM.Model.
+From DC Require Disruptor.Threads.
 
 Extraction Language OCaml.
 
@@ -26,4 +27,5 @@ Extraction "model.ml"
   Context.Model.context_model_entry Context.Spec.context_check_entry
   Collections.Model.collections_model_entry Collections.Model.collections_check_entry
   Causal.Entry.causal_model_entry Causal.Check.c01_check_entry Causal.Check.c10_check_entry
-  CSM.Model.csm_check_entry.
+  CSM.Model.csm_check_entry
+  Disruptor.Threads.ring_validate_entry.
